@@ -446,7 +446,25 @@ func c13Pairing(p *load.Prog, r *oblig.Run, g *cg.Graph) {
 			hsW := loopHeaders(w)
 			pureReset := func(cal *ssa.Function) bool {
 				f := fx[cal]
-				return f != nil && f.cacheStores[c] && len(f.loads) == 0 && len(f.storeOnParam) == 0
+				if f == nil || !f.cacheStores[c] || len(f.loads) != 0 || len(f.storeOnParam) != 0 {
+					return false
+				}
+				// it only clears: no value is put into a sync.Map, every direct store writes a zero/constant
+				for _, b := range cal.Blocks {
+					for _, ins := range b.Instrs {
+						switch x := ins.(type) {
+						case ssa.CallInstruction:
+							if su.CalleeIs(x.Common(), "sync", "Store") || su.CalleeIs(x.Common(), "sync", "LoadOrStore") || su.CalleeIs(x.Common(), "sync", "Swap") {
+								return false
+							}
+						case *ssa.Store:
+							if _, isFA := x.Addr.(*ssa.FieldAddr); isFA && !isResetValue(x.Val) {
+								return false
+							}
+						}
+					}
+				}
+				return true
 			}
 			// resetAll: a helper whose body is the reset loop (a loop calling a pure reset of c, no membership store)
 			resetAll := func(cal *ssa.Function) bool {
